@@ -30,8 +30,8 @@ type tail struct {
 func (t *tail) Write(p []byte) (int, error) {
 	t.mu.Lock()
 	t.buf = append(t.buf, p...)
-	if len(t.buf) > 8192 {
-		t.buf = t.buf[len(t.buf)-8192:]
+	if len(t.buf) > 65536 {
+		t.buf = t.buf[len(t.buf)-65536:]
 	}
 	t.mu.Unlock()
 	return len(p), nil
@@ -50,8 +50,11 @@ type worker struct {
 	err *tail
 }
 
-func startWorker(bin string) (*worker, error) {
+func startWorker(bin string, env ...string) (*worker, error) {
 	cmd := exec.Command(bin, "-worker")
+	if len(env) > 0 {
+		cmd.Env = append(os.Environ(), env...)
+	}
 	in, err := cmd.StdinPipe()
 	if err != nil {
 		return nil, err
@@ -78,23 +81,34 @@ var (
 	poolOnce sync.Once
 	pool     chan *worker // workers of this binary
 	poolInst chan *worker // workers of the instrumented binary (scheduling points inside the schedules, instr.go)
+	poolRace chan *worker // workers of the binary built with the race detector (instr.go)
 )
 
 const poolSize = 12
 
-func getPool(inst bool) chan *worker {
+func getPool(inst, race bool) chan *worker {
 	poolOnce.Do(func() {
 		pool = make(chan *worker, poolSize)
 		poolInst = make(chan *worker, poolSize)
+		poolRace = make(chan *worker, poolSize)
 		for i := 0; i < poolSize; i++ {
 			pool <- nil // started lazily
 			poolInst <- nil
+			poolRace <- nil
 		}
 	})
+	if race {
+		return poolRace
+	}
 	if inst {
 		return poolInst
 	}
 	return pool
+}
+
+// isRaceInput: the input is to be run on the worker built with the race detector.
+func isRaceInput(input string) bool {
+	return strings.Contains(" "+input+" ", " race=1 ")
 }
 
 // isFineInput: the input asks for scheduling points inside the schedule's operations.
@@ -108,6 +122,24 @@ func crashLine(stderr string) string {
 	var keep []string
 	for i, l := range lines {
 		l = strings.TrimSpace(l)
+		if strings.HasPrefix(l, "WARNING: DATA RACE") {
+			// the race detector's report: the first functions of the project on the two stacks
+			keep = append(keep, "DATA RACE")
+			for _, m := range lines[i+1:] {
+				m = strings.TrimSpace(m)
+				if strings.Contains(m, "yandex/pandora") && !strings.HasPrefix(m, "/") && len(keep) < 5 {
+					keep = append(keep, m)
+				}
+			}
+			break
+		}
+		if strings.Contains(l, "\tFATAL\t") {
+			// zap's Fatal (cli.readConfig refusing a configuration): the message and its fields
+			if k := strings.Index(l, "FATAL\t"); k >= 0 {
+				keep = append(keep, "FATAL "+l[k+6:])
+			}
+			break
+		}
 		if strings.HasPrefix(l, "panic:") || strings.HasPrefix(l, "fatal error:") {
 			keep = append(keep, l)
 			for _, m := range lines[i+1:] {
@@ -157,19 +189,31 @@ var stuckSeen atomic.Int64
 func execute1(input string) string {
 	bin := os.Args[0]
 	inst := isFineInput(input)
-	if inst {
+	race := isRaceInput(input)
+	var env []string
+	if race {
+		if inst {
+			return "res=noinstr why=race-and-fine-exclude-each-other"
+		}
+		b, why := raceWorker()
+		if b == "" {
+			return "res=noinstr why=" + why
+		}
+		bin = b
+		env = []string{"GORACE=halt_on_error=1"}
+	} else if inst {
 		b, why := instrumentedWorker()
 		if b == "" {
 			return "res=noinstr why=" + why
 		}
 		bin = b
 	}
-	p := getPool(inst)
+	p := getPool(inst, race)
 	w := <-p
 	defer func() { p <- w }()
 	if w == nil {
 		var err error
-		w, err = startWorker(bin)
+		w, err = startWorker(bin, env...)
 		if err != nil {
 			w = nil
 			return "res=err:cannot_start_worker"
